@@ -9,6 +9,7 @@ META = {
         "(2) thread bookkeeping per ptrace event: exit statuses and PTRACE_EVENT_EXIT remove the thread, PTRACE_EVENT_CLONE and PTRACE_EVENT_STOP of an unknown tid register it, PTRACE_EVENT_EXEC registers the main thread; "
         "(3) resume ownership: PTRACE_CONT / SINGLESTEP / INTERRUPT are issued only by the enumerated owners, and the continue wrapper flips the bookkeeping status to Running; cont_stopped resumes only threads recorded as stopped; "
         "(4) the group-stop re-entrancy guard is released on every exit (normal and error) of the group stop, the group stop runs two rounds over a fresh snapshot and marks every thread it interrupted as stopped."
+        " Also: no lifecycle-carrying wait status is dropped (path-correlated), a thread registered by apply_new_status is unregistered on its error exits, and (shared with C01) the rewind / step-off discipline."
     ),
     "not_decided": "everything that depends on the actual interleaving of threads and ptrace events (the core of the property); kernel behaviour",
     "assumptions": ["PTRACE_SEIZE semantics: new threads start with PTRACE_EVENT_STOP"],
